@@ -128,6 +128,13 @@ CLAIMED = {
              "points, weights, sampling density and trim curves.",
         technique="TLA+ spec (Exchange, MC_C14) model-checked exhaustively with TLC; spec->code replay through real files",
         design="4 C14"),
+    "C17": dict(
+        text="TLC proves the affine invariance of the definition (knot range aU+b, parameters au+b, derivatives scaled by a^-k) on every query "
+             "of the lattice, explores all interleavings of the process-pool model (result = sequential map, termination) and the LRU-memo "
+             "model for capacities 0/1/2/16; the replay evaluates every query under {linear, binary} span search x {normalised, three raw "
+             "knot ranges, raw input normalised}, both evaluator families, pools of 1/2/4/8 processes and one fresh interpreter per cache size.",
+        technique="TLA+ specs (MC_C17 affine invariance, Pool, Cache) model-checked with TLC; spec->code replay under the configuration product",
+        design="4 C17"),
 }
 
 PENDING_REASON = "check not built yet (work in progress, see DESIGN.md section 8 build order)"
